@@ -158,6 +158,9 @@ func (e *Envelope) Sign(key *dsig.PrivateKey) error {
 	if e.Head == nil {
 		return ErrValidation.WithReason("header required")
 	}
+	if key == nil {
+		return ErrSignature.WithReason("private key required")
+	}
 	sig, err := key.Sign(e.Head)
 	if err != nil {
 		return ErrSignature.WithCause(err)
